@@ -518,6 +518,30 @@ def m_rfind(ex, c, a, m):
     return NONE()
 
 
+@model(r'core::str::<impl str>::(match_indices|rmatch_indices)::<.+>')
+def m_match_indices(ex, c, a, m):
+    """(index, matched slice) of every non-overlapping match, from the front or from the back"""
+    s, p = as_S(a[0]), _pat(a[1])
+    out = []
+    if not p:
+        raise Unmodelled('match_indices with an empty pattern')
+    if m.group(1) == 'match_indices':
+        i = 0
+        while i + len(p) <= len(s):
+            if ex.branch(_match_at(s, i, p)):
+                out.append(Tup(i, S(s[i:i + len(p)]))); i += len(p)
+            else:
+                i += 1
+    else:
+        i = len(s) - len(p)
+        while i >= 0:
+            if ex.branch(_match_at(s, i, p)):
+                out.append(Tup(i, S(s[i:i + len(p)]))); i -= len(p)
+            else:
+                i -= 1
+    return PyIter(out)
+
+
 def _split(ex, s, p):
     parts, cur, i = [], [], 0
     n, k = len(s), len(p)
